@@ -80,6 +80,19 @@ def temp_handle(case, d):
             gc.collect(); look('first key set')
             cls(path, accessmode='r+').metadata.pop('fs')
             gc.collect(); look('last key popped')
+        elif case['how'] == 'meta_rplus':
+            # a read-only handle whose metadata object alone was switched to 'r+'
+            h = cls(path, accessmode='r')
+            h.metadata.accessmode = 'r+'
+            h.metadata['fs'] = 1
+            look('first key set')
+            h.metadata.popitem()
+            look('last key popped')
+            if not ragged:
+                # ... and a length change through a read-only handle that a context opened for writing
+                with h.open_array(accessmode='r+'):
+                    darr.truncate_array(h, 1)
+                look('truncated inside an r+ context of an r handle')
         else:
             def meta_of(p):
                 return cls(p, accessmode='r+').metadata
